@@ -960,9 +960,19 @@ func registerUnicode(in map[string]intrinsic) {
 			if r.Op == OConst {
 				return ConstInt(32, int64(f(rune(int32(r.C))))), true
 			}
-			// ASCII exact, otherwise concretize (fork over values)
-			v := p.concretize(r, "unicode."+name)
-			return ConstInt(32, int64(f(rune(int32(v))))), true
+			// ASCII exact; beyond ASCII any rune (stub: case tables not encoded)
+			tc := &p.tc
+			if p.branch(tc.Bin(OULt, r, Const(BV(32), 0x80))) {
+				var res *Term = r
+				for c := rune(0); c < 0x80; c++ {
+					if m := f(c); m != c {
+						res = tc.Ite(tc.Eq(r, Const(BV(32), uint64(c))), Const(BV(32), uint64(m)), res)
+					}
+				}
+				return res, true
+			}
+			p.stub("unicode." + name + " beyond ASCII (any rune)")
+			return tc.Var(BV(32), "unicode."+name), true
 		}
 	}
 	conv("ToLower", unicode.ToLower)
@@ -1099,16 +1109,32 @@ func registerRegexp(in map[string]intrinsic) {
 		if s, ok := cstr(a[1]); ok && r != nil {
 			return intSlice(r.FindStringIndex(s)), true
 		}
-		p.unsupported("FindStringIndex on symbolic data")
-		return nil, true
+		g := 0
+		if r != nil {
+			g = r.NumSubexp()
+		}
+		_ = g
+		m := p.stubMatch("regexp.FindStringIndex", 0, Const(BV(64), 0), strLen(a[1]))
+		if m == nil {
+			return []value(nil), true
+		}
+		return m, true
 	}
 	in["(*regexp.Regexp).FindStringSubmatchIndex"] = func(p *Path, _ *frame, _ *ssa.Function, a []value) (value, bool) {
 		r := re(p, a[0])
 		if s, ok := cstr(a[1]); ok && r != nil {
 			return intSlice(r.FindStringSubmatchIndex(s)), true
 		}
-		p.unsupported("FindStringSubmatchIndex on symbolic data")
-		return nil, true
+		g := 0
+		if r != nil {
+			g = r.NumSubexp()
+		}
+		_ = g
+		m := p.stubMatch("regexp.FindStringSubmatchIndex", g, Const(BV(64), 0), strLen(a[1]))
+		if m == nil {
+			return []value(nil), true
+		}
+		return m, true
 	}
 	in["(*regexp.Regexp).FindAllStringIndex"] = func(p *Path, _ *frame, _ *ssa.Function, a []value) (value, bool) {
 		r := re(p, a[0])
@@ -1116,8 +1142,11 @@ func registerRegexp(in map[string]intrinsic) {
 		if s, ok := cstr(a[1]); ok && r != nil && okn {
 			return intSlices(r.FindAllStringIndex(s, int(n.Int()))), true
 		}
-		p.unsupported("FindAllStringIndex on symbolic data")
-		return nil, true
+		lim := int64(-1)
+		if okn {
+			lim = n.Int()
+		}
+		return p.stubFindAll("regexp.FindAllStringIndex", 0, strLen(a[1]), lim), true
 	}
 	in["(*regexp.Regexp).FindAllStringSubmatchIndex"] = func(p *Path, _ *frame, _ *ssa.Function, a []value) (value, bool) {
 		r := re(p, a[0])
@@ -1125,8 +1154,15 @@ func registerRegexp(in map[string]intrinsic) {
 		if s, ok := cstr(a[1]); ok && r != nil && okn {
 			return intSlices(r.FindAllStringSubmatchIndex(s, int(n.Int()))), true
 		}
-		p.unsupported("FindAllStringSubmatchIndex on symbolic data")
-		return nil, true
+		lim := int64(-1)
+		if okn {
+			lim = n.Int()
+		}
+		g := 0
+		if r != nil {
+			g = r.NumSubexp()
+		}
+		return p.stubFindAll("regexp.FindAllStringSubmatchIndex", g, strLen(a[1]), lim), true
 	}
 	in["(*regexp.Regexp).FindAllSubmatchIndex"] = func(p *Path, _ *frame, _ *ssa.Function, a []value) (value, bool) {
 		r := re(p, a[0])
@@ -1135,9 +1171,92 @@ func registerRegexp(in map[string]intrinsic) {
 		if s, ok := mkStr(bs).(string); ok && r != nil && okn {
 			return intSlices(r.FindAllSubmatchIndex([]byte(s), int(n.Int()))), true
 		}
-		p.unsupported("FindAllSubmatchIndex on symbolic data")
-		return nil, true
+		lim := int64(-1)
+		if okn {
+			lim = n.Int()
+		}
+		g := 0
+		if r != nil {
+			g = r.NumSubexp()
+		}
+		return p.stubFindAll("regexp.FindAllSubmatchIndex", g, len(bs), lim), true
 	}
+}
+
+// stubMatch returns an arbitrary result allowed by the regexp API contract
+// for one (sub)match over a subject of length n starting the search at from:
+// nil, or 2*(groups+1) indices with 0 <= from <= s0 <= e0 <= n and every group
+// either (-1,-1) or inside [s0,e0].
+func (p *Path) stubMatch(name string, groups int, from *Term, n int) []value {
+	p.stub(name + " (any result the regexp contract allows)")
+	tc := &p.tc
+	if !p.branch(tc.Var(SBool, "re.found")) {
+		return nil
+	}
+	out := make([]value, 2*(groups+1))
+	s0 := tc.Var(BV(64), "re.s0")
+	e0 := tc.Var(BV(64), "re.e0")
+	nn := Const(BV(64), uint64(n))
+	p.addPC(tc.And(tc.Bin(OULe, from, s0), tc.And(tc.Bin(OULe, s0, e0), tc.Bin(OULe, e0, nn))))
+	out[0], out[1] = s0, e0
+	for g := 1; g <= groups; g++ {
+		if p.branch(tc.Var(SBool, "re.group")) {
+			a := tc.Var(BV(64), "re.gs")
+			b := tc.Var(BV(64), "re.ge")
+			p.addPC(tc.And(tc.Bin(OULe, s0, a), tc.And(tc.Bin(OULe, a, b), tc.Bin(OULe, b, e0))))
+			out[2*g], out[2*g+1] = a, b
+		} else {
+			out[2*g], out[2*g+1] = ConstInt(64, -1), ConstInt(64, -1)
+		}
+	}
+	p.refreshModel()
+	return out
+}
+
+// refreshModel re-establishes a model of the path condition after constraints
+// on fresh variables were added.
+func (p *Path) refreshModel() {
+	ok := true
+	for _, c := range p.pending {
+		if !p.evalBool(c) {
+			ok = false
+			break
+		}
+	}
+	if ok {
+		return
+	}
+	r, m := p.check(tTrue)
+	if r != "sat" {
+		panic(abortPath{"infeasible", "stub constraints"})
+	}
+	p.model = m
+	p.newEval()
+}
+
+func (p *Path) stubFindAll(name string, groups int, n int, limit int64) value {
+	var out []value
+	from := Const(BV(64), 0)
+	for i := 0; i < 2 && (limit < 0 || int64(i) < limit); i++ {
+		m := p.stubMatch(name, groups, from, n)
+		if m == nil {
+			break
+		}
+		out = append(out, m)
+		// next search starts after this match (at least one position later
+		// for an empty match)
+		e := m[1].(*Term)
+		s0 := m[0].(*Term)
+		adv := p.tc.Ite(p.tc.Eq(s0, e), p.tc.Bin(OAdd, e, Const(BV(64), 1)), e)
+		if !p.branch(p.tc.Bin(OULe, adv, Const(BV(64), uint64(n)))) {
+			break
+		}
+		from = adv
+	}
+	if out == nil {
+		return []value(nil)
+	}
+	return out
 }
 
 func intSlice(x []int) value {
